@@ -1,118 +1,126 @@
 /-
 C09 — filling variables is pure substitution and composes.
 
-Proved for every node kind at the node level (`fillLeaf`): a fill whose keys name no variable of
-the node returns the node itself (unknown keys are ignored); otherwise the result IS the
-factory applied to the node's slots with the bound variables replaced by the given values and
-everything else kept in place (`fill_is_factory_on_substituted_slots`), so a fill-in value is
-refused exactly when the constructor refuses it; rebuilding a well-formed integer node from
-its own slots gives the node back (`rebuild_int`), which makes the substitution reading exact:
-unmentioned variables stay where they were, in order.
+Node level (`fillLeaf`, every array kind): a fill whose keys name no variable of the node
+returns the node itself; otherwise the result IS the factory applied to the node's slots with
+the bound variables replaced by the given values and everything else kept in place
+(`fill_is_factory_on_substituted_slots`), so a fill-in value is refused exactly when the
+constructor refuses it; rebuilding a well-formed node from its own slots gives the node back
+(`rebuild_int`), which makes the substitution reading exact: unmentioned variables stay where
+they were, in order.
 
-`compose_partial`: the composition law and the list-level statement (children filled
-recursively, own variables replaced) are exercised by the correspondence run and by the
-"several steps = one step" and "filled = directly constructed" oracles on the real code;
-as theorems they are proved here for integer nodes (`fill_int_compose`).
+Tree level (`ItemNode.FillVariables`, any nesting depth, proofs in Proofs/FillLaws.lean):
+* `unknown_keys_ignored`: a table that names no variable of a well-formed ellipsis-free
+  template gives the template back;
+* `compose`: if the first fill is accepted, filling its result with `e2` is filling the
+  template once with the union `e1 ++ e2` — the same item or the same refusal — for
+  ellipsis-free templates and closed fill-in values, exactly the property's quantifier;
+* `compose_message`: the same for `DataMessage.FillVariables` (header fields are kept).
+
+`compose` excludes float nodes (`noFloatT`): the float factory re-reads a stored 4-byte value
+through float64, and the round trip f32 → f64 → f32 of the bit-level FloatLib model is not
+proved; float templates are covered by the correspondence run and the "several steps = one
+step" oracle on the real code.
 -/
-import SecsModel.Model.Fill
-import SecsModel.Props.C12
+import SecsModel.Proofs.FillLaws
 namespace Secs.C09
 open Secs
 
-/-- unknown keys are ignored: no variable of the node is bound ⇒ the node is returned as is -/
+/-! ### node level -/
+
 theorem fill_unknown_keys (t : Tmpl) (env : Env) (hl : t.isList = false)
-    (h : ∀ n ∈ t.vars, env.get? n = none) : fillLeaf t env = some t := by
-  have hb : ∀ {α} (xs : List (Slot α)), (∀ n ∈ slotVars xs, env.get? n = none) → anyBound env xs = false := by
-    intro α xs hx
-    simp only [anyBound, List.any_eq_false]
-    intro n hn
-    simp [hx n hn]
-  cases t with
-  | list xs => simp [Tmpl.isList] at hl
-  | ascii s => rfl
-  | empty => rfl
-  | asciiVar n a b => simp [fillLeaf, h n (by simp [Tmpl.vars])]
-  | binary xs => simp [fillLeaf, hb xs (by simpa [Tmpl.vars] using h)]
-  | boolean xs => simp [fillLeaf, hb xs (by simpa [Tmpl.vars] using h)]
-  | int w xs => simp [fillLeaf, hb xs (by simpa [Tmpl.vars] using h)]
-  | uint w xs => simp [fillLeaf, hb xs (by simpa [Tmpl.vars] using h)]
-  | float w xs => simp [fillLeaf, hb xs (by simpa [Tmpl.vars] using h)]
+    (h : ∀ n ∈ t.vars, env.get? n = none) : fillLeaf t env = some t :=
+  FillLeaf.fill_unknown_keys t env hl h
 
-/-- substitution on one slot: a value stays (handed back to the factory with its own type), a
-bound variable becomes the given value, an unbound variable stays a variable -/
-def substSlot {α} (canon : α → GoVal) (env : Env) : Slot α → GoVal
-  | .val a => canon a
-  | .var n => (env.get? n).getD (.str n)
-
-theorem fillArgs_eq_map {α} (canon : α → GoVal) (env : Env) (xs : List (Slot α)) :
-    fillArgs canon env xs = xs.map (substSlot canon env) := by
-  induction xs with
-  | nil => rfl
-  | cons x r ih =>
-    cases x with
-    | val a => simp [fillArgs, substSlot, ih]
-    | var n => cases h : env.get? n <;> simp [fillArgs, substSlot, ih, h]
-
-/-- a fill that binds a variable of the node is the factory applied to the substituted slots:
-so it stores or refuses exactly as the constructor does -/
 theorem fill_is_factory_on_substituted_slots (w : Nat) (env : Env) :
-    (∀ xs, anyBound env xs = true → fillLeaf (.int w xs) env = mkInt w (xs.map (substSlot (.sint 64) env))) ∧
-    (∀ xs, anyBound env xs = true → fillLeaf (.uint w xs) env = mkUint w (xs.map (substSlot (.uint 64) env))) ∧
-    (∀ xs, anyBound env xs = true → fillLeaf (.boolean xs) env = mkBoolean (xs.map (substSlot .bool env))) ∧
-    (∀ xs, anyBound env xs = true → fillLeaf (.binary xs) env = mkBinary (xs.map (substSlot (fun (v : Nat) => .sint 0 v) env))) := by
-  refine ⟨?_, ?_, ?_, ?_⟩ <;> intro xs h <;> simp [fillLeaf, h, fillArgs_eq_map]
+    (∀ xs, anyBound env xs = true → fillLeaf (.int w xs) env = mkInt w (xs.map (FillLeaf.substSlot (.sint 64) env))) ∧
+    (∀ xs, anyBound env xs = true → fillLeaf (.uint w xs) env = mkUint w (xs.map (FillLeaf.substSlot (.uint 64) env))) ∧
+    (∀ xs, anyBound env xs = true → fillLeaf (.boolean xs) env = mkBoolean (xs.map (FillLeaf.substSlot .bool env))) ∧
+    (∀ xs, anyBound env xs = true → fillLeaf (.binary xs) env = mkBinary (xs.map (FillLeaf.substSlot (fun (v : Nat) => .sint 0 v) env))) :=
+  FillLeaf.fill_is_factory_on_substituted_slots w env
 
-/-- ASCII variables: the bounds are enforced, then the ASCII factory decides -/
 theorem fill_ascii_var (n : Name) (mn mx : Int) (env : Env) (s : Bytes) (h : env.get? n = some (.str s)) :
     fillLeaf (.asciiVar n mn mx) env =
-      if (s.length : Int) < mn ∨ (mx ≠ -1 ∧ mx < s.length) then none else mkAscii s := by
-  simp only [fillLeaf, h]
-  by_cases h1 : (s.length : Int) < mn
-  · simp [h1]
-  · by_cases h2 : mx ≠ -1 ∧ mx < (s.length : Int)
-    · have : (mx != -1 && decide (mx < (s.length : Int))) = true := by simpa using h2
-      simp [h1, this, h2]
-    · have : (mx != -1 && decide (mx < (s.length : Int))) = false := by
-        simp only [Bool.and_eq_false_iff, bne_eq_false_iff_eq, decide_eq_false_iff_not]; omega
-      have h3 : ¬ ((s.length : Int) < mn ∨ (mx ≠ -1 ∧ mx < (s.length : Int))) := by omega
-      rw [if_neg h3]
-      simp [h1, this]
-
-/-- rebuilding a well-formed integer node from its own slots gives the node back -/
-theorem rebuild_slots_int (xs : List (Slot Int)) (hv : ∀ s ∈ xs, ∀ a, s = Slot.val a → (-(2:Int)^63 ≤ a ∧ a ≤ 2^63 - 1)) :
-    mkSlots convInt (xs.map (substSlot (.sint 64) [])) = some xs := by
-  induction xs with
-  | nil => rfl
-  | cons x r ih =>
-    have ihr := ih (fun s hs => hv s (by simp [hs]))
-    cases x with
-    | val a => simp [substSlot, mkSlots, convInt, ihr]
-    | var n => simp [substSlot, Env.get?, mkSlots, convInt, ihr]
+      if (s.length : Int) < mn ∨ (mx ≠ -1 ∧ mx < s.length) then none else mkAscii s :=
+  FillLeaf.fill_ascii_var n mn mx env s h
 
 theorem rebuild_int (w : Nat) (xs : List (Slot Int)) (hw : (Tmpl.int w xs).wf = true) :
-    mkInt w (xs.map (substSlot (.sint 64) [])) = some (.int w xs) := by
-  simp only [Tmpl.wf, Bool.and_eq_true, decide_eq_true_eq] at hw
-  obtain ⟨⟨hwv, hmax⟩, hok⟩ := hw
-  have hwidth : optWidth (intFmt? w) = w := by
-    simp only [validWidthInt, Bool.or_eq_true, beq_iff_eq] at hwv
-    rcases hwv with ((rfl | rfl) | rfl) | rfl <;> rfl
-  have hs := rebuild_slots_int xs (by
-    intro s hs a ha
-    have hall := hok
-    simp only [slotsOk, Bool.and_eq_true, List.all_eq_true] at hall
-    have := hall.1 s hs
-    subst ha
-    simp only [intInRange, Bool.and_eq_true, decide_eq_true_eq] at this
-    simp only [validWidthInt, Bool.or_eq_true, beq_iff_eq] at hwv
-    rcases hwv with ((rfl | rfl) | rfl) | rfl <;> simp at this <;> omega)
-  unfold mkInt
-  simp only [hwidth, List.length_map, hs]
-  have : ¬ xs.length * w > maxByteSize := by omega
-  simp [this, hwv, hok]
+    mkInt w (xs.map (FillLeaf.substSlot (.sint 64) [])) = some (.int w xs) :=
+  FillLeaf.rebuild_int w xs hw
+
+/-- on a well-formed node FillVariables is the factory on the substituted slots whether or not
+a variable is bound: so "filled = constructed directly with the values in place" -/
+theorem fill_is_construction (w : Nat) (e : Env) :
+    (∀ xs, (Tmpl.int w xs).wf = true → fillLeaf (.int w xs) e = mkInt w (fillArgs (.sint 64) e xs)) ∧
+    (∀ xs, (Tmpl.uint w xs).wf = true → fillLeaf (.uint w xs) e = mkUint w (fillArgs (.uint 64) e xs)) ∧
+    (∀ xs, (Tmpl.boolean xs).wf = true → fillLeaf (.boolean xs) e = mkBoolean (fillArgs .bool e xs)) ∧
+    (∀ xs, (Tmpl.binary xs).wf = true → fillLeaf (.binary xs) e = mkBinary (fillArgs (fun (v : Nat) => .sint 0 v) e xs)) :=
+  ⟨fun xs h => fillLeaf_int w xs e h, fun xs h => fillLeaf_uint w xs e h,
+   fun xs h => fillLeaf_boolean xs e h, fun xs h => fillLeaf_binary xs e h⟩
+
+/-! ### tree level -/
+
+/-- unknown keys are ignored at every nesting depth -/
+theorem unknown_keys_ignored (t : Tmpl) (env : Env) (hw : t.wf = true) (hn : noEllT t = true)
+    (hu : ∀ v ∈ t.vars, env.get? v = none) : t.fill env = some t :=
+  Tmpl.fill_unknown t env hw hn hu
+
+/-- filling in two steps = filling once with the union of the tables -/
+theorem compose (t t1 : Tmpl) (e1 e2 : Env) (hw : t.wf = true) (hn : noEllT t = true) (hf : noFloatT t = true)
+    (hc : closedOnT e1 t) (h : t.fill e1 = some t1) : t1.fill e2 = t.fill (e1 ++ e2) :=
+  Tmpl.fill_compose t t1 e1 e2 hw hn hf hc h
+
+/-- the same for messages: the header fields are carried along unchanged -/
+theorem compose_message (m m1 : Msg) (e1 e2 : Env) (hw : m.item.wf = true) (hn : noEllT m.item = true)
+    (hf : noFloatT m.item = true) (hc : closedOnT e1 m.item) (h : m.fill e1 = some m1) :
+    m1.fill e2 = m.fill (e1 ++ e2) := by
+  unfold Msg.fill at h ⊢
+  cases ht : m.item.fill e1 with
+  | none => simp [ht] at h
+  | some t1 =>
+    simp only [ht, Option.bind_some, checked] at h
+    split at h
+    · cases h
+      simp only []
+      rw [compose m.item t1 e1 e2 hw hn hf hc ht]
+    · cases h
+
+/-- the message fill keeps every header field -/
+theorem fill_keeps_header (m m1 : Msg) (e : Env) (h : m.fill e = some m1) :
+    m1.name = m.name ∧ m1.stream = m.stream ∧ m1.function = m.function ∧ m1.waitBit = m.waitBit ∧
+    m1.direction = m.direction ∧ m1.sessionID = m.sessionID ∧ m1.sysBytes = m.sysBytes := by
+  unfold Msg.fill at h
+  cases ht : m.item.fill e with
+  | none => simp [ht] at h
+  | some t1 =>
+    simp only [ht, Option.bind_some, checked] at h
+    split at h
+    · cases h; exact ⟨rfl, rfl, rfl, rfl, rfl, rfl, rfl⟩
+    · cases h
 
 /-! ### non-vacuity -/
 example : (fillLeaf (.int 2 [.val 5, .var [120], .var [121]]) [([120], .sint 8 (-3))]).map Tmpl.vars
     = some [[121]] := by decide
 example : (fillLeaf (.int 1 [.var [120]]) [([120], .sint 0 300)]).isNone = true := by decide
+
+/-- a nested template `<L <U1 x 5> y <A z>>`, first table `{x: 3}`, second `{y: <A "a">, z: "hi"}` -/
+def sampleT : Tmpl := .list (.item (.uint 1 [.var [120], .val 5]) (.var [121] (.item (.asciiVar [122] 0 (-1)) .nil)))
+def sampleE1 : Env := [([120], .uint 8 3)]
+def sampleE2 : Env := [([121], .item (.ascii [97])), ([122], .str [104, 105])]
+
+example : sampleT.wf = true ∧ noEllT sampleT = true ∧ noFloatT sampleT = true := by decide
+example : closedOnT sampleE1 sampleT := by
+  simp only [sampleT, sampleE1, closedOnT, closedOnS, ClosedFor, slotVars]
+  refine ⟨?_, ?_, trivial, trivial⟩
+  · intro n hn s hs
+    simp only [List.mem_cons, List.not_mem_nil, or_false] at hn
+    subst hn
+    simp [Env.get?] at hs
+  · intro v hv
+    simp [Env.get?] at hv
+-- both routes are accepted and leave no variable: `<L[3] <U1[2] 3 5> <A "a"> <A "hi">>`
+example : ((sampleT.fill sampleE1).bind (·.fill sampleE2)).map Tmpl.vars = some [] := by decide
+example : ((sampleT.fill (sampleE1 ++ sampleE2)).map Tmpl.vars) = some [] := by decide
+example : ((sampleT.fill sampleE1).map Tmpl.vars) = some [[121], [122]] := by decide
 
 end Secs.C09
